@@ -182,7 +182,9 @@ func NewSchema(schema *openapi3.Schema, components Sourcer[Schema], opts SchemaO
 		if schema.Discriminator != nil {
 			out.Discriminator.PropertyKey = Just(schema.Discriminator.PropertyName)
 			out.Discriminator.Mapping = make([]DiscriminatorMapping, 0, len(out.OneOf))
-			mapMapping := map[string]*DiscriminatorMapping{}
+			// indexes into out.Discriminator.Mapping (the slice may be reallocated
+			// while it grows, so pointers into it must not be kept)
+			mapMapping := map[string]int{}
 
 			for _, o := range out.OneOf {
 				ref := o.Ref()
@@ -193,20 +195,23 @@ func NewSchema(schema *openapi3.Schema, components Sourcer[Schema], opts SchemaO
 					Key:    ref.Name,
 					Values: []string{ref.Name},
 				})
-				mapMapping[ref.Name] = &out.Discriminator.Mapping[len(out.Discriminator.Mapping)-1]
+				mapMapping[ref.Name] = len(out.Discriminator.Mapping) - 1
 			}
-			for k, v := range schema.Discriminator.Mapping {
+			for _, k := range sortedKeys(schema.Discriminator.Mapping) {
+				v := schema.Discriminator.Mapping[k]
 				if m, ok := refMapping[v]; ok {
-					mapMapping[m].Values = append(mapMapping[m].Values, k)
+					i := mapMapping[m]
+					out.Discriminator.Mapping[i].Values = append(out.Discriminator.Mapping[i].Values, k)
 				} else {
 					if _, ok := mapMapping[v]; !ok {
 						out.Discriminator.Mapping = append(out.Discriminator.Mapping, DiscriminatorMapping{
 							Key:    v,
 							Values: nil,
 						})
-						mapMapping[v] = &out.Discriminator.Mapping[len(out.Discriminator.Mapping)-1]
+						mapMapping[v] = len(out.Discriminator.Mapping) - 1
 					}
-					mapMapping[v].Values = append(mapMapping[v].Values, k)
+					i := mapMapping[v]
+					out.Discriminator.Mapping[i].Values = append(out.Discriminator.Mapping[i].Values, k)
 				}
 			}
 		}
